@@ -552,3 +552,64 @@ def a2_free_list_provenance(prog):
     else:
         r.viol('A2', 'deserialize/missing', '-', 'Allocator::from_serialized_parts not found')
     return r
+
+
+@rule('G8', props=['C05', 'C01', 'C04'], floor=3, configs=('all', 'default'))
+def g8_lookup_and_row_operation_agree(prog):
+    """The archetype a row operation runs on was looked up for the very entity shape the operation is instantiated
+    with, and that shape is canonical: every `Archetype::push::<E>` / `reserve::<E>` / `extend::<Es>` whose receiver is
+    the result of `Archetypes::get_mut_or_insert_new_for_entity::<L, _>` has E == L (for extend: `<Es as Contains>::Entity
+    == L`), and L is a `Canonical` projection of the registry's ContainsEntity/ContainsEntities relation. The columns of
+    an archetype are laid out in registry order; walking them with a shape in the caller's order grows or fills each
+    column as a Vec of another component type."""
+    r = Result()
+    OPS = ('push', 'extend', 'reserve')
+    S = pathsem.strip_refs
+    seen_ops = 0
+    for f in prog.fns.values():
+        if f.kind == 'Closure':
+            continue
+        if not any(True for _ in f.body.calls(lambda c: c['name'] in OPS and c['path'].startswith('archetype::Archetype::<R>::'))):
+            continue
+        E = pathsem.analyse(prog, f, max_paths=20000)
+        if E.truncated:
+            r.viol('G8', f.path + '/not-analysable', f.loc(), 'path enumeration cut off')
+            continue
+        rep = set()
+        for p in E.paths:
+            if p.ended not in ('return', 'cutoff'):
+                continue
+            lookups = {e['ret']: e for e in p.calls(lambda e: e['name'] == 'get_mut_or_insert_new_for_entity')}
+            for e in p.calls(lambda e: e['name'] in OPS and e['path'].startswith('archetype::Archetype::<R>::')):
+                recv = S(e['args'][0])
+                while isinstance(recv, tuple) and recv[0] == 'd':
+                    recv = S(recv[1])
+                lk = lookups.get(recv)
+                if lk is None:
+                    continue
+                k = (e['name'], e['ln'])
+                if k in rep:
+                    continue
+                rep.add(k)
+                seen_ops += 1
+                r.inst('%s: %s on the archetype looked up for the same shape' % (f.path[:80], e['name']))
+                og = [json.loads(g) for g in e['gargs']]
+                lg = [json.loads(g) for g in lk['gargs']]
+                if len(og) < 2 or len(lg) < 2:
+                    r.viol('G8', '%s/%s/shape' % (f.path, e['name']), f.loc(e['ln']), 'cannot read the generic instantiation')
+                    continue
+                op_t, lk_t = og[1], lg[1]
+                if e['name'] == 'extend':
+                    # lookup is for <Es as Contains>::Entity
+                    ok = lk_t.get('k') == 'alias' and lk_t.get('name') == 'Entity' and lk_t.get('args') and ty_eq(lk_t['args'][0], op_t)
+                    canon = op_t
+                else:
+                    ok = ty_eq(op_t, lk_t)
+                    canon = lk_t
+                if not ok:
+                    r.viol('G8', '%s/%s/shape-differs' % (f.path, e['name']), f.loc(e['ln']),
+                           'Archetype::%s is instantiated with %s but the archetype was looked up for %s: columns would be walked as Vecs of the wrong component types' % (e['name'], ty_str(op_t), ty_str(lk_t)))
+                elif not (canon.get('k') == 'alias' and canon.get('name') == 'Canonical'):
+                    r.viol('G8', '%s/%s/not-canonical' % (f.path, e['name']), f.loc(e['ln']),
+                           'the entity shape %s used for the archetype is not the registry-ordered canonical form' % ty_str(canon))
+    return r
